@@ -182,11 +182,21 @@ func c09Cases(thorough bool) []c09Case {
 	}
 	{
 		// three libraries: every DAG over L1 < L2 < L3 (edges Li->Lj, i<j) x every non-empty set of main edges with all libs reachable
-		f3 := []int{fPriv | fGlobal | fInit | fUseGlob}
+		type triple [3]int
+		var f3 []triple
+		all := fPriv | fGlobal | fInit | fUseGlob
+		f3 = append(f3, triple{all, all, all})
 		if thorough {
-			f3 = feats
+			f3 = nil
+			for _, a := range feats {
+				for _, b := range feats {
+					for _, c := range feats {
+						f3 = append(f3, triple{a, b, c})
+					}
+				}
+			}
 		}
-		for _, f := range f3 {
+		for _, ft := range f3 {
 			for dag := 0; dag < 8; dag++ {
 				e12, e13, e23 := dag&1 != 0, dag&2 != 0, dag&4 != 0
 				for mm := 1; mm < 8; mm++ {
@@ -204,7 +214,7 @@ func c09Cases(thorough bool) []c09Case {
 					if !(reach[0] && reach[1] && reach[2]) {
 						continue
 					}
-					l1, l2, l3 := c09Lib{id: 1, feat: f}, c09Lib{id: 2, feat: f}, c09Lib{id: 3, feat: f}
+					l1, l2, l3 := c09Lib{id: 1, feat: ft[0]}, c09Lib{id: 2, feat: ft[1]}, c09Lib{id: 3, feat: ft[2]}
 					if e12 {
 						l1.imports = append(l1.imports, 2)
 					}
@@ -214,7 +224,7 @@ func c09Cases(thorough bool) []c09Case {
 					if e23 {
 						l2.imports = append(l2.imports, 3)
 					}
-					c := c09Case{name: fmt.Sprintf("3libs dag=%d main=%d feat=%d", dag, mm, f), libs: []c09Lib{l1, l2, l3}}
+					c := c09Case{name: fmt.Sprintf("3libs dag=%d main=%d feat=%d,%d,%d", dag, mm, ft[0], ft[1], ft[2]), libs: []c09Lib{l1, l2, l3}}
 					for i := 0; i < 3; i++ {
 						if m[i] {
 							c.mainImp = append(c.mainImp, [2]string{fmt.Sprintf("a%d", i+1), fmt.Sprintf("l%d.tsh", i+1)})
